@@ -16,7 +16,7 @@ class Contract:
 
     def __init__(self, name, target, params, requires=(), ensures=None, raises=None, invariants=None,
                  modifies=(), fields=(), callees=None, self_class=None, inline=(), notes='',
-                 free_exceptions=(), total_fns=(), assumes=(), unroll=(), max_paths=4000, vararg_params=None):
+                 free_exceptions=(), total_fns=(), assumes=(), unroll=(), max_paths=4000, vararg_params=None, ensures_on_raise=None):
         self.name, self.target = name, target
         self.params = dict(params)
         self.requires = list(requires)
@@ -34,6 +34,7 @@ class Contract:
         self.assumes = list(assumes)                  # K5-style assumptions (listed in evidence)
         self.unroll = set(unroll)
         self.max_paths = max_paths
+        self.ensures_on_raise = dict(ensures_on_raise or {})   # state clauses that must hold at every exceptional exit
         self.vararg_params = vararg_params     # names of the positionals bound to *args (fixed-arity instance)
 
 
